@@ -15,7 +15,12 @@ class SharedDictDataset(CachedDataset):
             sample = self.dataset[idx]
             self.shared_dict[idx] = sample
         else:
-            sample = self.shared_dict[idx]
+            try:
+                sample = self.shared_dict[idx]
+            except KeyError:
+                # another process cleared the cache between the membership test and the lookup
+                sample = self.dataset[idx]
+                self.shared_dict[idx] = sample
         return sample
 
     def dispose(self):
